@@ -411,7 +411,7 @@ func (g *gen) pexpayload() ([]byte, string) {
 	r := g.r
 	var kvs []kv
 	tag := "valid"
-	a, af := compactPeers(r, r.Intn(4), 4)
+	a, af := compactPeers(r, r.Intn(5), 4)
 	a6, a6f := compactPeers(r, r.Intn(3), 16)
 	d, _ := compactPeers(r, r.Intn(3), 4)
 	d6, _ := compactPeers(r, r.Intn(3), 16)
@@ -420,8 +420,18 @@ func (g *gen) pexpayload() ([]byte, string) {
 		a = append(a, rbytes(r, 1+r.Intn(5))...)
 	}
 	if r.Intn(5) == 0 {
+		// a flags string that is shorter or longer than the list of peers (also for the IPv6 list)
 		tag = "flagmismatch"
-		af = rbytes(r, r.Intn(6))
+		np := len(a) / 6
+		k := []int{0, 1, np - 1, np + 1, 1, r.Intn(6)}[r.Intn(6)]
+		if k < 0 {
+			k = 0
+		}
+		af = rbytes(r, k)
+		if r.Intn(2) == 0 {
+			a6, _ = compactPeers(r, 2+r.Intn(2), 16)
+			a6f = rbytes(r, 1)
+		}
 	}
 	if r.Intn(8) == 0 {
 		tag = "badlen6"
